@@ -149,6 +149,7 @@ func (g *storeGen) mutate(t *gTrie) {
 			k = g.keys[g.r.Intn(len(g.keys))]
 		}
 		g.emit("del %d %s", t.id, ptok(k))
+		g.touch(t.id) // the generator's content view is approximate: the delete may succeed all the same
 		if _, ok := t.content[k]; !ok {
 			return // fails with notpresent: nothing changes
 		}
